@@ -94,7 +94,16 @@ def derive_cache_limits(settings):
     settings['CACHE_SIZE_HARD_MAX'] = settings['MAX_CACHE_SIZE']
 
 
+_factors = []
+
+
 def conf_limit_factors():
+  if not _factors:
+    _factors.append(_conf_limit_factors())
+  return _factors[0]
+
+
+def _conf_limit_factors():
   """Read the factors carbon.conf uses for the derived cache limits from its source text.
 
   Returns (low_watermark_factor, hard_factor_flow_control, hard_factor_no_flow) so that the oracle
